@@ -4,7 +4,7 @@
    header of Gen/C07_gen.v and the evidence notes). *)
 From Coq Require Import List ZArith QArith Bool.
 From DV Require Import Base.PyList Base.C07_Num Model.C07_Spea2 Model.C07_RefPoints Model.C07_GenRt Gen.C07_gen
-                       Proofs.C07_SelectGen Proofs.C07_Spea2 Proofs.C07_gen_equiv.
+                       Proofs.C07_SelectGen Proofs.C07_Spea2 Proofs.C07_RefPoints Proofs.C07_gen_equiv.
 Import ListNotations.
 Local Open Scope nat_scope.
 
@@ -16,7 +16,9 @@ Theorem C07_gen_source_is_model :
   (forall {T} (Op : numops T) fuel arr b e i ds,
      gen_randomizedSelect Op fuel arr b e i ds = rand_select Op fuel arr b e i ds) /\
   (forall {T} (Op : numops T) inds k ds,
-     gen_selSPEA2 Op inds k ds = spea2 Op (map fst inds) (map snd inds) k ds).
+     gen_selSPEA2 Op inds k ds = spea2 Op (map fst inds) (map snd inds) k ds) /\
+  (forall {T} (Op : numops T) nobj p sc, 1 <= nobj ->
+     gen_uniform_reference_points Op (Z.of_nat nobj) (Z.of_nat p) sc = ref_points Op nobj p sc).
 Proof. exact source_is_model. Qed.
 Print Assumptions C07_gen_source_is_model.
 
@@ -78,8 +80,35 @@ Theorem C07_gen_spea2_exact : forall (vq : list (list Q)) (wvals : list (list qx
 Proof. exact gen_spea2_exact. Qed.
 Print Assumptions C07_gen_spea2_exact.
 
+(* reference points: the regenerated uniform_reference_points over exact rationals
+   (gen_ref_points_q nobj p sc = gen_uniform_reference_points q_ops nobj p sc): C(nobj+p-1, p) points *)
+Theorem C07_gen_ref_points_count : forall nobj p sc, 1 <= nobj ->
+  length (gen_ref_points_q nobj p sc) = binom (nobj + p - 1) p.
+Proof. exact gen_ref_points_count. Qed.
+Print Assumptions C07_gen_ref_points_count.
+
+(* every point has nobj non-negative coordinates that sum to 1 (with or without scaling 0 <= s <= 1) *)
+Theorem C07_gen_ref_points_rows : forall nobj p sc row, 1 <= nobj -> 1 <= p ->
+  match sc with Some s => (0 <= s)%Q /\ (s <= 1)%Q | None => True end ->
+  In row (gen_ref_points_q nobj p sc) ->
+  length row = nobj /\ Forall (fun x => (0 <= x)%Q) row /\ (qsum row == 1)%Q.
+Proof. exact gen_ref_points_rows. Qed.
+Print Assumptions C07_gen_ref_points_rows.
+
+(* the points are pairwise distinct (scaling s <> 0) *)
+Theorem C07_gen_ref_points_distinct : forall nobj p sc i j, 1 <= nobj -> 1 <= p ->
+  match sc with Some s => ~ (s == 0)%Q | None => True end ->
+  let pts := gen_ref_points_q nobj p sc in
+  i < length pts -> j < length pts -> i <> j -> ~ Forall2 Qeq (nth i pts []) (nth j pts []).
+Proof. exact gen_ref_points_distinct. Qed.
+Print Assumptions C07_gen_ref_points_distinct.
+
 (* non-vacuity: the regenerated _randomizedSelect evaluated on a valid pivot sequence *)
 Example C07_gen_select_example :
   let arr := [QF 2; QF 0; QF 1; QF 1; QF 0]%Q in
   qx_eqb (fst (gen_randomizedSelect qx_ops 6 arr 0%Z 4%Z 2%Z [3; 0; 2; 2]%Z)) (QF 1) = true.
+Proof. vm_compute. reflexivity. Qed.
+
+Example C07_gen_refs_example :
+  gen_ref_points_q 3 2 None = map (map (fun i => Qred (inject_Z (Z.of_nat i) / 2))) [[0; 0; 2]; [0; 1; 1]; [0; 2; 0]; [1; 0; 1]; [1; 1; 0]; [2; 0; 0]].
 Proof. vm_compute. reflexivity. Qed.
